@@ -393,6 +393,6 @@ pub fn run(ctx: &Ctx, rep: &mut Report, replay: Option<&serde_json::Value>) {
         }
         return;
     }
-    run_prop(ctx, rep, "direct", ctx.tier.pick(20_000, 400_000), case_strategy(), prop);
-    run_prop(ctx, rep, "loop", ctx.tier.pick(1_500, 30_000), loop_strategy(), prop_loop);
+    run_prop(ctx, rep, "direct", ctx.tier.pick(60_000, 1_000_000), case_strategy(), prop);
+    run_prop(ctx, rep, "loop", ctx.tier.pick(5_000, 60_000), loop_strategy(), prop_loop);
 }
